@@ -634,6 +634,16 @@ def b_op(op, x, y):
         if not ys:
             return x if y else z3.Not(x)
         return x == y
+    if op in ('gt', 'lt', 'ge', 'le'):
+        a = x if xs else z3.BoolVal(bool(x))
+        b = y if ys else z3.BoolVal(bool(y))
+        if op == 'lt':
+            a, b = b, a
+            op = 'gt'
+        if op == 'le':
+            a, b = b, a
+            op = 'ge'
+        return z3.simplify(z3.And(a, z3.Not(b)) if op == 'gt' else z3.Or(a, z3.Not(b)))
     raise ShimUnsupported(f'boolean operation {op}')
 
 
